@@ -710,9 +710,15 @@ func Build(c *Case) (*Built, error) {
 
 // MkSeq builds the input glyph sequence exactly as Shaper.tla's MkSeq does.
 func MkSeq(in []int) []glyph.Info {
+	// The text of all glyphs lives in ONE array, as it does for a caller who slices []rune(s): an engine
+	// that appends to a glyph's Text in place overwrites the text of the following glyphs.
 	seq := make([]glyph.Info, len(in))
+	all := make([]rune, len(in))
+	for i := range all {
+		all[i] = rune(i + 1)
+	}
 	for i, g := range in {
-		seq[i] = glyph.Info{GID: glyph.ID(g), Text: []rune{rune(i + 1)}, Advance: funit.Int16(10 * (g % 300))}
+		seq[i] = glyph.Info{GID: glyph.ID(g), Text: all[i : i+1], Advance: funit.Int16(10 * (g % 300))}
 	}
 	return seq
 }
